@@ -88,8 +88,30 @@ OPT_DEFAULT = {"P1": 0, "P2": 0, "P3": 1, "P4": 4, "P5": 2, "BK": -1, "SZ": 2, "
 SYMB = "symbolic (solver): per-node W,H in [0,64], NodeSpacing, LayerSpacing in [0,64]"
 
 
-def layout_ob(name, func, shape_list, dims, consts=None, **kw):
-    cubes = product([shape_cube(s) for s in shape_list], dims)
+LAYOUT_CAP = 16000
+
+
+def layout_ob(name, func, shape_list, dims, consts=None, cap=LAYOUT_CAP, **kw):
+    """shapes x option grid. Above `cap` cubes the shapes with the largest edge count keep only every k-th option combination,
+    rotating with the shape index (every shape is still explored, every option combination still meets every k-th shape);
+    the reduction is stated in the bounds text"""
+    shape_cubes = [shape_cube(s) for s in shape_list]
+    cubes = product(shape_cubes, dims)
+    if len(cubes) > cap and dims:
+        ncombo = len(cubes) // len(shape_cubes)
+        maxm = max(len(s) for s in shape_list)
+        small = sum(1 for s in shape_list if len(s) < maxm) * ncombo
+        big = len(cubes) - small
+        k = min(ncombo, max(2, -(-big // max(1, cap - small))))
+        kept = []
+        for si, sc in enumerate(shape_cubes):
+            combos = product([sc], dims)
+            if sc["M"] < maxm:
+                kept += combos
+            else:
+                kept += [c for ci, c in enumerate(combos) if (si + ci) % k == 0]
+        cubes = kept
+        kw["bounds"] = kw.get("bounds", "") + " [shapes with M=%d: every %d-th option combination per shape, rotating with the shape index]" % (maxm, k)
     c = dict(OPT_DEFAULT)
     c.update(consts or {})
     return dict(name=name, pkg=".", func=func, consts=c, cubes=cubes, **kw)
@@ -415,10 +437,10 @@ def lp_kernel_ob(tier):
 
 def C11(tier):
     q = tier == "quick"
-    sh = shapes(5, 3) + shapes(3, 4) if q else shapes(5, 5, selfloops=False) + shapes(4, 4) + shapes(6, 4, selfloops=False)
+    sh = shapes(5, 3) + shapes(3, 4) if q else shapes(5, 4, selfloops=False) + shapes(4, 4) + shapes(6, 4, selfloops=False) + edge_lists(4, 5, connected=True)
     obs = [layout_ob("layout-lp-min-layers", "Harness_E_C11", sh, {"P1": [0, 1]},
                      consts={"P2": 1, "P4": 1, "P5": 0, "SZ": 0, "LSFIX": 1, "NSFIX": 1},
-                     bounds="canonical edge lists (%s) x {greedy,dfs} x longest-path layering" % nm(q, "N<=5 M<=3 and N<=3 M<=4", "N<=5 M<=5 loop-free, N<=4 M<=4 with self-loops, N<=6 M<=4 loop-free")),
+                     bounds="canonical edge lists (%s) x {greedy,dfs} x longest-path layering" % nm(q, "N<=5 M<=3 and N<=3 M<=4", "N<=5 M<=4 loop-free, N<=4 M<=4 with self-loops, N<=6 M<=4 loop-free, connected loop-free N=4 M=5")),
            lp_kernel_ob(tier)]
     return dict(obligations=obs)
 
@@ -521,7 +543,7 @@ def C14(tier):
         obs.append(dict(name="phase1-%s-symbolic-tail" % an, pkg="internal/phase1", func="Harness_Phase1", consts=dict(base, ALG=alg),
                         cubes=cubes, bounds="every canonical prefix of M-1 edges as a cube, last edge symbolic, (N,M) in %s" % tail,
                         enctimeout=300, qtimeout=120, maporder="symbolic"))
-    grid = [(2, 2), (2, 3), (3, 2), (3, 3), (3, 4), (4, 3), (4, 4), (5, 5)] if q else [(2, 2), (2, 3), (2, 4), (2, 5), (3, 2), (3, 3), (3, 4), (3, 5), (4, 3), (4, 4), (4, 5), (5, 4), (5, 5), (5, 6)]
+    grid = [(2, 2), (2, 3), (3, 2), (3, 3), (3, 4), (4, 3), (4, 4), (5, 5)] if q else [(2, 2), (2, 3), (2, 4), (2, 5), (3, 2), (3, 3), (3, 4), (3, 5), (4, 3), (4, 4), (4, 5), (5, 4), (5, 5)]
     for alg, an in ((1, "dfs"), (0, "greedy")):
         cubes = [c for (n, m) in grid for c in phase1_cubes(n, m)]
         obs.append(dict(name="phase1-%s-cubes" % an, pkg="internal/phase1", func="Harness_Phase1", consts=dict(base, ALG=alg),
